@@ -463,6 +463,29 @@ func c02Fixed(c *core.Ctx, run func(i int64, p *lang.Program, tag string)) int64
 			i++
 		}
 	}
+	// programs that introduce hundreds to thousands of names nobody used before (unique per case, so the
+	// number of distinct names the process has seen keeps growing) while variables declared at the start
+	// stay in use: they must still be the same variables at the end
+	for k := 0; k < 80; k++ {
+		if c.Mine(i) {
+			u := fmt.Sprintf("%d_%d", c.Seed, k)
+			keep, other, loc := "keep_"+u, "other_"+u, "loc_"+u
+			nf := []int{100, 700, 2500, 5000, 9000}[k%5]
+			blk := &lang.Stmt{Kind: lang.SDef, Name: "blk", BlockName: lang.StrLit("n")}
+			blk.Body = append(blk.Body, vr(loc, num(1)))
+			for f := 0; f < nf; f++ {
+				blk.Body = append(blk.Body, ex(lang.Assign(fmt.Sprintf("f%d_%s", f, u), num(f))))
+				if f%997 == 5 {
+					blk.Body = append(blk.Body, ex(lang.Assign(loc, lang.Bin("+", lang.Id(loc), lang.Id(keep)))), pr(lang.Id(loc)))
+				}
+			}
+			blk.Body = append(blk.Body, ex(lang.Assign("sum", lang.Bin("+", lang.Bin("+", lang.Id(keep), lang.Id(other)), lang.Id(loc)))), pr(lang.Id("sum")))
+			prog := &lang.Program{Stmts: []*lang.Stmt{vr(keep, num(7)), vr(other, num(8)), blk, pr(lang.Bin("+", lang.Id(keep), lang.Id(other))),
+				{Kind: lang.SEval, E: lang.Assign(keep, num(70))}, vr("late_"+u, lang.Id(keep)), pr(lang.Id("late_" + u)), pr(lang.Id(other))}}
+			run(i, prog, "thousands_of_new_names_around_live_variables")
+		}
+		i++
+	}
 	return i
 }
 
